@@ -802,6 +802,7 @@ impl<'a, P: ProcessRun> PubPoint<'a, P> {
         // adds randomness to visiting the repositories, reducing peak load.
         let mut items_random: Vec<_> = collected.content.iter().collect();
         items_random.shuffle(&mut rand::rng());
+        #[cfg(feature = "verif-hooks")] crate::verif::permute_sorted(&mut items_random, |item| item.file().clone());
         let mut items = items_random.into_iter();
 
         let mut point_ok = true;
